@@ -1874,16 +1874,29 @@ fn propagate_section_attributes<'data, P: Platform>(
 ) {
     timing_phase!("Propagate section attributes");
 
+    // Merge the attributes from all groups before applying them. Applying them group by group would
+    // make the result depend on how files were split into groups, and so on the thread count.
+    let mut merged: OutputSectionMap<Option<P::SectionAttributes>> =
+        output_sections.new_section_map();
     for group_state in group_states {
         group_state
             .common
             .section_attributes
             .for_each(|section_id, attributes| {
                 if let Some(attributes) = attributes {
-                    attributes.apply(output_sections, section_id);
+                    match merged.get_mut(section_id) {
+                        Some(existing) => existing.merge(*attributes),
+                        slot @ None => *slot = Some(*attributes),
+                    }
                 }
             });
     }
+
+    merged.for_each(|section_id, attributes| {
+        if let Some(attributes) = attributes {
+            attributes.apply(output_sections, section_id);
+        }
+    });
 }
 
 /// This is similar to computing start addresses, but is used for things that aren't addressable,
